@@ -127,10 +127,9 @@ theorem frame_delProv (s : State) (i : Id) (ks : List (Kind × Id)) : Frame s (d
 
 /-! ## reading back what was written -/
 
-theorem getSP_putSP_eq (s : State) (k : Kind) (j : Id) (sp : SP) (hk : k ≠ .authorizer) :
+theorem getSP_putSP_eq (s : State) (k : Kind) (j : Id) (sp : SP) :
     kvGet (putSP s k j sp).sps (k, j) = some sp := by
-  unfold putSP; simp only [hk, ↓reduceIte]
-  exact kvGet_kvSet_eq _ _ _
+  unfold putSP; simp only; exact kvGet_kvSet_eq _ _ _
 
 theorem sps_putSP_ne (s : State) (k : Kind) (j : Id) (sp : SP) (kk : Kind × Id) (h : kk ≠ (k, j)) :
     kvGet (putSP s k j sp).sps kk = kvGet s.sps kk := by
@@ -141,14 +140,7 @@ theorem sps_putProv (s : State) (j : Id) (p : Prov) : (putProv s j p).sps = s.sp
 theorem sps_delProv (s : State) (j : Id) : (delProv s j).sps = s.sps := rfl
 theorem provs_delSP (s : State) (k : Kind) (j : Id) : (delSP s k j).provs = s.provs := rfl
 
-theorem viewSP_of_ne (k : Kind) (sp : SP) (hk : k ≠ .authorizer) : viewSP k sp = sp := by
-  unfold viewSP; simp [hk]
-
-theorem getSP_of_ne (s : State) (k : Kind) (j : Id) (hk : k ≠ .authorizer) : getSP s k j = kvGet s.sps (k, j) := by
-  unfold getSP
-  cases kvGet s.sps (k, j) with
-  | none => rfl
-  | some sp => simp [viewSP_of_ne k sp hk]
+theorem getSP_eq (s : State) (k : Kind) (j : Id) : getSP s k j = kvGet s.sps (k, j) := rfl
 
 /-! ## the loaders -/
 
@@ -165,7 +157,7 @@ theorem loadBlobber_ok {s : State} {r : Req} {L : Loaded} (h : loadBlobber s r =
     · split at h
       · cases h
       · rename_i hk
-        rw [getSP_of_ne s .blobber r.reqId (by decide)] at h
+        rw [getSP_eq] at h
         cases hs : kvGet s.sps (Kind.blobber, r.reqId) with
         | none => simp [hs] at h
         | some sp =>
@@ -410,7 +402,7 @@ theorem slashPools_isEmpty {red : F64} {ps ps' : List (Id × DP)} (h : slashPool
 nothing else changes. -/
 theorem spKill_spec {sp sp' : SP} {slash : F64} (h : spKill sp slash = .ok sp') :
     sp'.dead = true ∧ sp'.reward = sp.reward ∧ sp'.wallet = sp.wallet ∧ sp'.offers = sp.offers ∧
-    sp'.maxDelegates = sp.maxDelegates ∧ sp'.minStake = sp.minStake ∧ sp'.ratio = sp.ratio ∧ sp'.inner = sp.inner ∧
+    sp'.maxDelegates = sp.maxDelegates ∧ sp'.minStake = sp.minStake ∧ sp'.ratio = sp.ratio ∧
     sp'.pools.isEmpty = sp.pools.isEmpty ∧
     ((F64.eq slash F64.zero = true ∧ sp'.pools = sp.pools) ∨
      (F64.eq slash F64.zero = false ∧ slashPools (reduction slash) sp.pools = .ok sp'.pools)) := by
@@ -419,7 +411,7 @@ theorem spKill_spec {sp sp' : SP} {slash : F64} (h : spKill sp slash = .ok sp') 
   · rename_i hz
     injection h with h
     subst h
-    exact ⟨rfl, rfl, rfl, rfl, rfl, rfl, rfl, rfl, rfl, Or.inl ⟨hz, rfl⟩⟩
+    exact ⟨rfl, rfl, rfl, rfl, rfl, rfl, rfl, rfl, Or.inl ⟨hz, rfl⟩⟩
   · rename_i hz
     split at h
     · cases h
@@ -430,7 +422,7 @@ theorem spKill_spec {sp sp' : SP} {slash : F64} (h : spKill sp slash = .ok sp') 
         simp only [hs] at h
         injection h with h
         subst h
-        exact ⟨rfl, rfl, rfl, rfl, rfl, rfl, rfl, rfl, slashPools_isEmpty hs, Or.inr ⟨by simpa using hz, rfl⟩⟩
+        exact ⟨rfl, rfl, rfl, rfl, rfl, rfl, rfl, slashPools_isEmpty hs, Or.inr ⟨by simpa using hz, rfl⟩⟩
 
 /-! ## frames of the wrappers -/
 
@@ -440,7 +432,7 @@ def stakeView (sp : SP) : List (Id × DP) × Bool × Nat := (sp.pools, sp.dead, 
 theorem refreshBlobberOffers_ok {s st : State} {r : Req} (h : refreshBlobberOffers s r = .ok st) :
     ∃ sp, kvGet s.sps (.blobber, r.reqId) = some sp ∧ st = putSP s .blobber r.reqId { sp with offers := 0 } := by
   unfold refreshBlobberOffers at h
-  rw [getSP_of_ne s .blobber r.reqId (by decide)] at h
+  rw [getSP_eq] at h
   cases hs : kvGet s.sps (Kind.blobber, r.reqId) with
   | none => simp [hs] at h
   | some sp =>
@@ -455,7 +447,7 @@ theorem refreshBlobberOffers_view {s st : State} {r : Req} (h : refreshBlobberOf
   refine ⟨rfl, rfl, rfl, fun kk => ?_⟩
   by_cases hk : kk = (Kind.blobber, r.reqId)
   · subst hk
-    rw [getSP_putSP_eq s .blobber r.reqId _ (by decide), hs]
+    rw [getSP_putSP_eq s .blobber r.reqId _, hs]
     rfl
   · rw [sps_putSP_ne s .blobber r.reqId _ kk hk]
 
